@@ -284,6 +284,8 @@ _PARSE = {
     'dateTime': re.compile(r'^(?P<y>-?\d{4,})-(?P<mo>\d\d)-(?P<d>\d\d)T(?P<h>\d\d):(?P<mi>\d\d):(?P<s>\d\d)(?:\.(?P<f>\d+))?' + _TZ_RE),
     'date': re.compile(r'^(?P<y>-?\d{4,})-(?P<mo>\d\d)-(?P<d>\d\d)' + _TZ_RE),
     'time': re.compile(r'^(?P<h>\d\d):(?P<mi>\d\d):(?P<s>\d\d)(?:\.(?P<f>\d+))?' + _TZ_RE),
+    'gYear': re.compile(r'^(?P<y>-?\d{4,})' + _TZ_RE),
+    'gYearMonth': re.compile(r'^(?P<y>-?\d{4,})-(?P<mo>\d\d)' + _TZ_RE),
 }
 
 
@@ -399,8 +401,8 @@ def _gate(t, rv, xsd):
             return 'leap-proxy-big-1.1'
         if t == 'dateTime' and rv['h'] == 24 and (rv['mo'], rv['d']) == (2, 28) and cal.is_leap(y) != cal.is_leap(y + 1):
             return 'leap-proxy-big-1.1'
-    if xsd == '1.1' and cal.lex_year(_canon(t, rv)['y'], xsd) < -9999:
-        return 'print-1.1-below--9999'
+    if xsd == '1.1' and cal.lex_year(_canon(t, rv)['y'], xsd) <= -9999:
+        return 'print-1.1-le--9999'
     if xsd == '1.0' and y <= 0 and t == 'dateTime' and rv['h'] == 24 and (rv['mo'], rv['d']) == (2, 28):
         return 'open'           # XSD 1.0 BCE: which day follows Feb 28 is not defined -> never judged
     return None
@@ -413,18 +415,28 @@ def _res_fam(xsd, r):
         fams.append('res-feb29-big-1.1')
     if r['y'] < 0 and (r['mo'], r['d']) == (1, 1) and (r['h'], r['mi'], r['s'], r['us']) != (0, 0, 0, 0):
         fams.append('res-bce-jan1Tx')
-    if xsd == '1.1' and cal.lex_year(r['y'], xsd) < -9999:
-        fams.append('res-print-1.1-below--9999')
+    if xsd == '1.1' and cal.lex_year(r['y'], xsd) <= -9999:
+        fams.append('res-print-1.1-le--9999')
     return fams
 
 
+_FAM_PRIORITY = ['radd-dayTime-dateTime', 'neg-frac', 'time-dur>=730000d', 'bce@1.0', 'res-feb29-big-1.1', 'res-bce-jan1Tx',
+                 'res-print-1.1-le--9999', 'ym-year-out-of-range', 'adjust-date-moves-day', 'implicit-tz', 'years-differ+tz']
+
+
 def _fam(*parts):
+    """the primary input class of an assertion: the first applicable known-defect class in _FAM_PRIORITY (the one
+    that corrupts the observation earliest), else 'plain'"""
     out = []
     for p in parts:
         for f in ([p] if isinstance(p, str) else (p or [])):
-            if f and f not in out:
+            if f and f != 'plain' and f not in out:
                 out.append(f)
-    return '+'.join(out) or 'plain'
+    for f in _FAM_PRIORITY:
+        if f in out:
+            return f
+    assert not out, out
+    return 'plain'
 
 
 def _bk(fam, kind, where):
@@ -432,7 +444,8 @@ def _bk(fam, kind, where):
 
 
 def _esc(e, fam, where):
-    return escape_bucket('C11', e) + f'/{fam}/{where}'
+    """exception escaping elementpath: the failure kind is type + innermost elementpath frame"""
+    return f'C11/{fam}/' + escape_bucket('C11', e).replace('C11/escape/', 'escape:') + f'/{where}'
 
 
 def _classes_of(vals, t):
@@ -540,7 +553,7 @@ def judge_value(case, rec: Recorder | None = None):
         got = str(obj)
         ok = got == want
         if not ok:
-            k = diff_fields(t, want, got) if t in FULL else 'lexical'
+            k = diff_fields(t, want, got) if t in _PARSE else 'lexical'
             discs.append(Disc(_bk(fam, k, f'value/str/{t}'), want, got, fmt(t, rv, xsd, lv)))
         else:
             try:
@@ -769,8 +782,8 @@ def _judge_diff(D, A, B, t, ra, rb, xsd, discs):
             return judged
     # a + (b - a) = b : same instant as b, in a's timezone (dates: the day containing it)
     if amb:
-        if ra['tz'] != rb['tz'] or t == 'date':
-            return judged
+        if ra['tz'] != rb['tz'] or t == 'date' or _diff_fam(exp):
+            return judged           # (a negative fractional difference is already wrong: known class neg-frac)
         want, mid = sb, _canon(t, rb)
     else:
         exp_r, mid = _ref_add_us(t, ra, int(exp * 10 ** 6))
@@ -938,15 +951,38 @@ def _xcheck(discs, case, expr, want, bucket, allow_overflow=False, alt=None):
         if isinstance(r.exc, ElementPathError):
             discs.append(Disc(bk('error:' + str(getattr(r.exc, 'code', '?')).replace('err:', '')), want, repr(r.exc), expr))
         else:
-            tail = bucket.replace('/{kind}', '').split('/', 1)[1]
-            discs.append(Disc(escape_bucket('C11', r.exc) + '/' + tail, want, repr(r.exc), expr))
+            discs.append(Disc(bk(escape_bucket('C11', r.exc).replace('C11/escape/', 'escape:')), want, repr(r.exc), expr))
         return None
     got = _xs(r)
     if got != want and (alt is None or got != alt):
         t = case['t']
-        k = diff_fields(t, want, got) if t in FULL and isinstance(want, str) and parse_lex(t, want) else 'value'
+        k = diff_fields(t, want, got) if t in _PARSE and isinstance(want, str) and parse_lex(t, want) else 'value'
         discs.append(Disc(bk(k), want, got, expr))
     return got
+
+
+def _xdiff(discs, case, expr, exp, fam, where, allow_overflow):
+    """a difference of two date/time values must be the xs:dayTimeDuration of exactly `exp` seconds"""
+    from elementpath import ElementPathError
+    from elementpath.datatypes import DayTimeDuration
+    r = _xeval(case, expr)
+    if isinstance(r, _Raised):
+        if not (allow_overflow and _is_overflow(r.exc)):
+            kind = 'error:' + str(getattr(r.exc, 'code', '?')).replace('err:', '') if isinstance(r.exc, ElementPathError) \
+                else escape_bucket('C11', r.exc).replace('C11/escape/', 'escape:')
+            discs.append(Disc(_bk(fam, kind, where), cal.fmt_duration(0, exp), repr(r.exc), expr))
+        return False
+    if not isinstance(r, DayTimeDuration):
+        discs.append(Disc(_bk(fam, 'type', where), 'xs:dayTimeDuration', type(r).__name__, expr))
+        return False
+    got = Fraction(r.seconds)
+    if got != exp or r.months or str(r) != cal.fmt_duration(0, exp):
+        dd = got - exp
+        kind = 'string' if not dd else 'days%+d' % (dd / 86400) if dd % 86400 == 0 and abs(dd) <= 2 * 86400 else \
+            'floor-minus-fraction' if got == 2 * (exp.numerator // exp.denominator) - exp else 'value'
+        discs.append(Disc(_bk(fam, kind, where), cal.fmt_duration(0, exp), str(r), expr))
+        return False
+    return True
 
 
 def _lit(t, rv, xsd, lv=0):
@@ -996,7 +1032,8 @@ def judge_xpath(case, rec: Recorder | None = None):
                                 ('radd', 1, f'string({X} + {la})')):
             exp, mid = _ref_add_us(t, ra, sign * x)
             amb = yl and _amb(xsd, ra, exp)
-            fam = _fam('bce@1.0' if amb else None, _time_fam(t, x), _res_fam(xsd, mid) if yl else None)
+            fam = _fam('bce@1.0' if amb else None, _time_fam(t, x), _res_fam(xsd, mid) if yl else None,
+                       'radd-dayTime-dateTime' if opn == 'radd' and t == 'dateTime' else None)
             over = yl and (_huge(ra, exp) or abs(exp['y']) >= BIG - 1)
             if amb:
                 if t == 'dateTime' and opn != 'radd':        # law only
@@ -1023,13 +1060,12 @@ def judge_xpath(case, rec: Recorder | None = None):
             if not amb:
                 judged = True
                 fam = _fam(ifam, _diff_fam(exp))
-                _xcheck(discs, dict(case, t='-'), f'string({lb} - {la})', cal.fmt_duration(0, exp),
-                        _bk(fam, '{kind}', f'xpath/difference/{t}'), allow_overflow=huge)
-                exp_r, mid = _ref_add_us(t, ra, int(exp * 10 ** 6))
-                fam = _fam(fam, _res_fam(xsd, mid) if yl else None, _time_fam(t, int(exp * 10 ** 6)))
-                _xcheck(discs, case, f'string({la} + ({lb} - {la}))', fmt(t, exp_r, xsd),
-                        _bk(fam, '{kind}', f'xpath/add-difference/{t}'), allow_overflow=huge)
-            elif ra['tz'] == rb['tz'] and t == 'dateTime':
+                if _xdiff(discs, case, f'{lb} - {la}', exp, fam, f'xpath/difference/{t}', huge):
+                    exp_r, mid = _ref_add_us(t, ra, int(exp * 10 ** 6))
+                    fam = _fam(fam, _res_fam(xsd, mid) if yl else None, _time_fam(t, int(exp * 10 ** 6)))
+                    _xcheck(discs, case, f'string({la} + ({lb} - {la}))', fmt(t, exp_r, xsd),
+                            _bk(fam, '{kind}', f'xpath/add-difference/{t}'), allow_overflow=huge)
+            elif ra['tz'] == rb['tz'] and t == 'dateTime' and not _diff_fam(exp) and not (ifam and mixed):
                 fam = _fam('bce@1.0', _diff_fam(exp), _res_fam(xsd, cb))
                 _xcheck(discs, case, f'string({la} + ({lb} - {la}))', sb, _bk(fam, '{kind}', f'xpath/add-difference/{t}'),
                         allow_overflow=huge)
@@ -1079,7 +1115,8 @@ def _xpath_adjust(case, discs, t, ra, la, xsd, ctz, adj):
         if yl and _amb(xsd, ra, exp) and moved:
             continue            # XSD 1.0 BCE: the neighbouring day may be an undefined Feb 29
         judged = True
-        fam = _fam(_res_fam(xsd, exp) if yl else None)
+        fam = _fam(_res_fam(xsd, exp) if yl else None,
+                   'adjust-date-moves-day' if t == 'date' and moved and ra['tz'] is not None and tz is not None else None)
         tzc = ('tz' if ra['tz'] is not None else 'no-tz') + ('+moves-date' if moved and t != 'time' else '')
         _xcheck(discs, case, expr, fmt(t, exp, xsd), _bk(fam, '{kind}', f'xpath/adjust-{label}/{t}/{tzc}'),
                 allow_overflow=yl and (_huge(ra) or abs(exp['y']) >= BIG - 1))
@@ -1289,7 +1326,7 @@ def _judge_dur_components(discs, xcase, kind, m, s, c):
     sg_s = -1 if s < 0 else 1
     am, as_ = abs(m), abs(s)
     want = [sg_m * (am // 12), sg_m * (am % 12), sg_s * int(as_ // 86400), sg_s * int(as_ // 3600 % 24),
-            sg_s * int(as_ // 60 % 60), str(sg_s * (as_ % 60))]
+            sg_s * int(as_ // 60 % 60), _xs(Decimal(0) + sg_s * Decimal((as_ % 60).numerator) / Decimal((as_ % 60).denominator))]
     expr = '(' + ', '.join(f"{fn}-from-duration(xs:{kind}('{c}'))" for fn in ('years', 'months', 'days', 'hours', 'minutes', 'seconds')) + ')'
     _xcheck(discs, xcase, expr, want, f'C11/duration/xpath-components/{kind}')
 
